@@ -272,7 +272,7 @@ def guard_gate(run):
     axioms_ok = all(set(a.strip() for a in m.split(',') if a.strip()) <= common.STD_AXIOMS
                     for m in re.findall(r"depends on axioms: \[([^\]]*)\]", out, flags=re.S))
     cov['translator_guards'] = dict(status='checked' if ok and axioms_ok else 'mismatch', guards=sorted(gs),
-                                    obligation='Gen.<rule>Guard = C01.whileGuardProg, Gen.<rule>Complete = C01.meekCompleteProg / ifCompleteProg by rfl; '
+                                    obligation='Gen.<rule>Guard = C01.whileGuardProg, Gen.<rule>Complete = C01.meekCompleteProg / ifCompleteProg, Gen.<rule>MaxDefeat = C01.maxDefeatProg by rfl; '
                                                'stdGuard_is_program, meekCountComplete_is_program, scotCountComplete_is_program, qpqCountComplete_is_program')
     if ok and axioms_ok:
         return []
@@ -535,7 +535,7 @@ def retie_line(item):
 
 @prop('C07')
 def C07(run):
-    spec = dict(rules=ALL, keys=['EXC', 'C07b', 'C07l', 'C07t', 'C07s'], proj=proj_C07, quick=5000, thorough=150000,
+    spec = dict(rules=ALL, keys=['EXC', 'C07b', 'C07l', 'C07t', 'C07s'], proj=proj_C07, quick=5000, thorough=150000, extra_gate=guard_gate,
                 families=['plain', 'symmetric', 'symmetric', 'sure_losers', 'on_quota', 'chains', 'few_supported', 'crossover', 'threeway'])
     count_property(run, spec)
     # when no tie is logged the record does not depend on the tie-break order (implementation vs implementation)
